@@ -252,7 +252,7 @@ impl<'a> Ctx<'a> {
                         modified = true;
                         let cur_lo = cands.iter().map(|c| c.lo).min().unwrap_or(lo);
                         // certainly applied, and while the delivery was certainly still outstanding
-                        let settled = md.definite && md.done_seq.map(|s| s < from_seq).unwrap_or(false) && md.done_t.map(|t| t < cur_lo).unwrap_or(false);
+                        let settled = md.definite && md.done_seq.map(|s| s <= from_seq).unwrap_or(false) && md.done_t.map(|t| t < cur_lo).unwrap_or(false);
                         let n = (md.secs.clamp(0, 600) as u64) * 1_000_000;
                         let cand = if md.secs <= 0 {
                             nacked = true;
